@@ -59,6 +59,80 @@ fn k_c17_proj_ref(region: u8, neg: bool, turn: u8) {
   }
 }
 
+// ---- reference formulae, decided compositionally (the monolithic comparison needs a second copy of |lon| * 4/pi and of the
+// polar product: equivalence checking of 53x53 multipliers, 25-40+ min per region) --------------------------------------------
+// (a) k_c17_pm1: the REAL pm1_offset_decompose against its specification: (pm1 + offset) = xs (mod 8), pm1 in [-1, 1), offset odd in 1..=7
+// (b) k_c17_proj_formula: the REAL proj with pm1_offset_decompose replaced by an arbitrary value satisfying (a): proj passes it
+//     exactly |lon| * 4/pi (recorded argument, bit-identical), and x, y are the Calabretta & Roukema expressions of (pm1, offset, lat)
+static mut PM1_ARG: u64 = 0;
+static mut PM1_RET: (u64, u8) = (0, 0);
+
+pub(crate) fn stub_pm1_offset_decompose(x: f64) -> crate::OffsetAndPM1 {
+  let pm1: f64 = kani::any();
+  let offset: u8 = kani::any();
+  kani::assume(pm1 >= -1.0 && pm1 < 1.0 && (offset == 1 || offset == 3 || offset == 5 || offset == 7));
+  unsafe { PM1_ARG = x.to_bits(); PM1_RET = (pm1.to_bits(), offset); }
+  crate::OffsetAndPM1 { offset, pm1 }
+}
+
+fn k_c17_pm1() {
+  let xs: f64 = kani::any();
+  kani::assume(xs >= 0.0 && xs <= 32.1);
+  kani::cover!(xs == 8.0, "xs = 8");
+  kani::cover!(xs > 31.0, "fourth turn");
+  let r = crate::pm1_offset_decompose(xs);
+  assert!(r.offset == 1 || r.offset == 3 || r.offset == 5 || r.offset == 7, "C17: pm1_offset_decompose offset not in {1, 3, 5, 7}");
+  assert!(r.pm1 >= -1.0 && r.pm1 < 1.0, "C17: pm1_offset_decompose pm1 not in [-1, 1)");
+  // (pm1 + offset) = xs modulo 8: xs - (offset + 8 j) = pm1 for one j in 0..=4 (the subtraction of an integer within 1 of xs; exact for xs >= 1)
+  let o = r.offset as f64;
+  let ok = xs - o == r.pm1 || xs - (o + 8.0) == r.pm1 || xs - (o + 16.0) == r.pm1 || xs - (o + 24.0) == r.pm1 || xs - (o + 32.0) == r.pm1;
+  assert!(ok, "C17: pm1_offset_decompose: pm1 + offset differs from the argument modulo 8");
+}
+
+/// proj decomposes exactly |lon| * 4/pi: decided for the longitudes with at most 13 significant bits (every exponent, both signs):
+/// comparing with a second copy of the product is an equivalence check of two 53 x 53 multipliers, out of reach at full width
+fn k_c17_proj_arg() {
+  let lon: f64 = kani::any();
+  kani::assume(lon >= -25.2 && lon <= 25.2);
+  kani::assume(lon.to_bits() & ((1u64 << 40) - 1) == 0);
+  kani::cover!(lon > 7.0, "second turn");
+  kani::cover!(lon < 0.0, "negative longitude");
+  let _ = hp::proj(lon, 0.25);
+  let alon = f64::from_bits(lon.to_bits() & 0x7FFF_FFFF_FFFF_FFFF);
+  let arg = unsafe { PM1_ARG };
+  assert!(arg == (alon * FOUR_OVER_PI_K).to_bits(), "C17: proj does not decompose |lon| * 4/pi");
+}
+
+fn k_c17_proj_formula(region: u8, neg: bool) {
+  let lon: f64 = kani::any();
+  let lat: f64 = kani::any();
+  kani::assume(lon >= -25.2 && lon <= 25.2 && lat >= -C_HALF_PI && lat <= C_HALF_PI);
+  kani::assume(region_lat(region, lat) && (lon.to_bits() >> 63 == 1) == neg);
+  kani::cover!(lon > 7.0 || lon < -7.0, "second turn");
+  let (x, y) = hp::proj(lon, lat);
+  let alon = f64::from_bits(lon.to_bits() & 0x7FFF_FFFF_FFFF_FFFF);
+  let alat = f64::from_bits(lat.to_bits() & 0x7FFF_FFFF_FFFF_FFFF);
+  let (arg, pm1, off) = unsafe { (PM1_ARG, f64::from_bits(PM1_RET.0), PM1_RET.1 as f64) };
+  let _ = arg;   // the identity of the decomposed argument is decided by k_c17_proj_arg (a second copy of the product here makes the query an equivalence check of two multipliers)
+  let ax = f64::from_bits(x.to_bits() & 0x7FFF_FFFF_FFFF_FFFF);
+  let ay = f64::from_bits(y.to_bits() & 0x7FFF_FFFF_FFFF_FFFF);
+  assert!((x.to_bits() >> 63 == 1) == neg || ax != ax, "C17: x does not carry the sign bit of the longitude");
+  assert!((y.to_bits() >> 63) == (lat.to_bits() >> 63), "C17: y does not carry the sign bit of the latitude");
+  let tol = 1.4210854715202004e-14;   // 2^-46
+  if alat <= C_T {
+    // cylindrical equal area: x = pm1 + offset, |y| = 3/2 sin |lat|
+    let xr = pm1 + off;
+    let yr = alat.sin() * 1.5;
+    assert!(ax - xr <= tol && xr - ax <= tol && ay - yr <= tol && yr - ay <= tol, "C17: proj differs from the reference formulae (equatorial region)");
+  } else {
+    // Collignon: t = sqrt(3 (1 - sin |lat|)) = sqrt 6 cos(|lat| / 2 + pi/4), x = pm1 t + offset, |y| = 2 - t
+    let t = SQRT6_K * (alat * 0.5 + PI_OVER_FOUR_K).cos();
+    let xr = pm1 * t + off;
+    let yr = 2.0 - t;
+    assert!(ax - xr <= tol && xr - ax <= tol && ay - yr <= tol && yr - ay <= tol, "C17: proj differs from the reference formulae (polar cap)");
+  }
+}
+
 fn k_c17_unproj() {
   let x: f64 = kani::any();
   let y: f64 = kani::any();
